@@ -14,7 +14,7 @@ LEVEL = "exploration"
 RULE = (
     "update calls from G's update grammar (1-3 coordinate tensors, bracket position free or absent, flattened target/coordinate axes, "
     "vectorised axes present only in coordinates / updates / target, duplicates forced by small index ranges) on set_at/add_at/subtract_at and "
-    "backends None/'numpy'/'numpy.numpylike'; a case is distinct by (op, description skeleton) and non-trivial if at least one element is "
+    "backends None/'numpy'/'numpy.numpylike'; 40 % of the cases with mixed dtypes (updates uint8/uint16/int32/float32/int64/float64 against float64/int64/float32/int32 targets, expected values in exact integer arithmetic); a case is distinct by (op, description skeleton) and non-trivial if at least one element is "
     "addressed twice or an axis is missing from one of the three roles"
 )
 ASSUMPTIONS = [
@@ -86,19 +86,20 @@ def check_update(case, out, backends, rng=None):
             continue
         rf = np.ascontiguousarray(res).reshape(-1)
         bad = None
+        py = lambda v: v.item() if hasattr(v, "item") else v  # exact Python arithmetic (numpy scalars of narrow dtypes wrap around)
         for off in range(rf.size):
             cs = contrib.get(off)
             if not cs:
                 ok = rf[off] == orig[off]
                 why = "unaddressed element changed"
             elif case.op == "add_at":
-                ok = rf[off] == orig[off] + sum(cs)
+                ok = py(rf[off]) == py(orig[off]) + sum(py(c) for c in cs)
                 why = "sum of contributions"
             elif case.op == "subtract_at":
-                ok = rf[off] == orig[off] - sum(cs)
+                ok = py(rf[off]) == py(orig[off]) - sum(py(c) for c in cs)
                 why = "sum of contributions"
             else:
-                ok = any(rf[off] == c for c in cs)
+                ok = any(py(rf[off]) == py(c) for c in cs)
                 why = "value is none of the competing updates"
             if not ok:
                 bad = (off, why, orig[off], [float(c) for c in cs] if cs else [], float(rf[off]))
@@ -181,6 +182,20 @@ def run(spec, out):
     P = {"maxlen": spec["maxlen"], "ell_p": 0.0}
     for i in range(spec["n"]):
         case = G.generate(rng, nprng, family="update", P=P)
+        if rng.random() < 0.4:
+            # mixed dtypes: update values of another (also unsigned / narrower) dtype than the target; all values are small integers, so the
+            # expected result is exact in Python integer arithmetic
+            udt = rng.choice(["uint8", "uint16", "int32", "float32", "int64", "float64", "uint8"])
+            tdt = rng.choice(["float64", "int64", "float32", "int32"])
+            ts = list(case.tensors)
+            upd = np.asarray(ts[-1])
+            if udt.startswith("uint"):
+                upd = np.abs(upd)
+            ts[-1] = upd.astype(udt)
+            ts[0] = np.asarray(ts[0]).astype(tdt)
+            case.tensors = ts
+            out.count("mixed_dtype_cases")
+            out.count(f"update_dtype:{udt}")
         out.count(f"op:{case.op}")
         for f in case.feats:
             out.count(f"feat:{f}")
@@ -196,6 +211,8 @@ def finalize(agg, tier, seed):
     for op in ("set_at", "add_at", "subtract_at"):
         if c.get(f"op:{op}", 0) < 50:
             agg.inconclusive.append(f"{op} observed only {c.get(f'op:{op}', 0)} times")
+    if c.get("mixed_dtype_cases", 0) < 50:
+        agg.inconclusive.append("fewer than 50 cases with mixed target / update dtypes")
     if c.get("cases_with_duplicates", 0) < 50:
         agg.inconclusive.append("fewer than 50 cases with duplicate addresses")
     return {"features_seen": {k[5:]: int(v) for k, v in c.items() if k.startswith("feat:")}, "shape_classes": {k[12:]: int(v) for k, v in c.items() if k.startswith("shape_class:")}}
